@@ -206,10 +206,28 @@ async def p_close_then_body(req, V, log):
     return {"body": [b, b2]}
 
 
+def _p_two_readers(first_kind, second_kind):
+    """two tasks read the request concurrently (start offset of the second is symbolic): whoever owns the receive
+    channel gets the whole body, the other one the documented error or (stream after a finished body) the replay"""
+    async def read(req, kind):
+        return (kind, await (_get(req.body) if kind == "body" else _drain(req)))
+
+    async def prog(req, V, log):
+        async def later():
+            await _maybe_sleep(V["w"][0])
+            return await read(req, second_kind)
+        t = asyncio.ensure_future(later())
+        a = await read(req, first_kind)
+        return {"readers": [a, await t]}
+    return prog
+
+
 PROGRAMS = {"body2+stream": p_body_twice_then_stream, "concurrent-body": p_concurrent_bodies, "stream+body": p_stream_then_body,
             "json+body": p_json_then_body, "form+body+close": p_form_then_body_close, "concurrent-body-json": p_concurrent_body_json,
-            "close+body": p_close_then_body}
-PAYLOAD = {"body2+stream": "raw", "concurrent-body": "raw", "stream+body": "raw", "json+body": "json", "form+body+close": "form",
+            "close+body": p_close_then_body, "concurrent-body-stream": _p_two_readers("body", "stream"),
+            "concurrent-stream-body": _p_two_readers("stream", "body"), "concurrent-stream-stream": _p_two_readers("stream", "stream")}
+PAYLOAD = {"concurrent-body-stream": "raw", "concurrent-stream-body": "raw", "concurrent-stream-stream": "raw",
+           "body2+stream": "raw", "concurrent-body": "raw", "stream+body": "raw", "json+body": "json", "form+body+close": "form",
            "concurrent-body-json": "json", "close+body": "raw"}
 
 
@@ -235,6 +253,16 @@ def verdict_asgi(job, V, obs, log) -> str:
         raise Fail("body-not-cached-identical")
     if obs.get("same_future") is False:
         raise Fail("body-recomputed")
+    if "readers" in obs:
+        served = 0
+        for kind, r in obs["readers"]:
+            val = ("ok", b"".join(r[1])) if kind == "stream" and r[0] == "ok" else r
+            if val == exp_body:
+                served += 1
+            elif val != ("runtime", "Stream consumed"):
+                raise Fail("concurrent-reader-got-partial-data" if val[0] == "ok" else "concurrent-reader-wrong-error", f"{kind}: got {r!r}, expected {exp_body!r} or 'Stream consumed'")
+        if served == 0:
+            raise Fail("no-concurrent-reader-got-the-body", repr(obs["readers"]))
     prog = job["prog"]
     if prog == "body2+stream":
         s = obs["stream_after_body"]
